@@ -9,7 +9,7 @@
   NOT catch and that the code underneath can syntactically raise is the bare
   `Exception("Hash to Curve - Optimized SWU failure")` of `optimized_swu_G2`.  Excluding it is a
   number-theoretic fact about `optimized_swu_G2` (DESIGN: HT6 / C10 stage 3), here the explicit
-  hypothesis `SwuTotal`.  The `…_total_or_swu` theorems are hypothesis-free and say precisely that this
+  hypothesis `SwuTotal` (`optimized_swu_G2` returns on every `a + b·i`, `0 ≤ a, b < p`).  The `…_total_or_swu` theorems are hypothesis-free and say precisely that this
   is the only thing that can escape.
 -/
 import PyEcc.Lemmas.BlsSem
@@ -51,6 +51,17 @@ theorem hashToG2_suite_error_kinds (H : HashFn) (hd : 2 ≤ H.digestSize) (msg :
    fun h => hashToG2_error_of_dst hd (by rw [popTag_length]; decide) h⟩
 
 example : 2 ≤ sha256Fn.digestSize := by decide
+
+/-- **The signature-side `pairing` calls cannot raise.**  For every byte string that `signature_to_G2`
+    decodes to `S`, `pairing(S, G1)` (in `_CoreVerify`) and `pairing(S, −G1)` (in `_CoreAggregateVerify`)
+    return: `decompress_G2` only returns points it has checked with `is_on_curve` (or `Z2`), and `±G1` are on
+    the curve.  (The key-side calls `pairing(hash_to_G2(m), ∓P)` additionally need "`hash_to_G2` lands on the
+    twist" — DESIGN HT6/C10 — and C11's "decoded keys are on the curve"; here their only possible
+    exception, `ValueError`, is shown to be caught.) -/
+theorem pairing_sig_cannot_raise (sig : Bytes) (S : G2Pt) (h : signatureToG2 sig = .ok S) :
+    (∃ e, pairingOptBls S blsG1 false = .ok e) ∧
+    (∃ e, pairingOptBls S (Gen.OptBls.neg blsG1) false = .ok e) :=
+  pairing_sig_ok h
 
 /-! ## 2. Totality -/
 
